@@ -112,6 +112,36 @@ def _prim(p, name):
     return out
 
 
+def parentless_nodes_rule(ctx, hugr, file, rule="C04.R2") -> None:
+    """only the constructor creates a node without a parent: every other call of the raw node constructor `_add_node` passes a parent that
+    cannot be None -- an optional `parent` parameter is defaulted to the root first (add_node does), or the parent is computed"""
+    n = 0
+    for name, m in hugr.methods.items():
+        if name in ("__init__", "_add_node"):
+            continue
+        cf = ctx.cfn(f"{HQ}.{name}", subst=False)
+        optional = set()
+        a = m.args
+        pos = a.posonlyargs + a.args
+        for p_, d_ in zip(pos[len(pos) - len(a.defaults):], a.defaults):
+            if isinstance(d_, ast.Constant) and d_.value is None:
+                optional.add(p_.arg)
+        for p_, d_ in zip(a.kwonlyargs, a.kw_defaults):
+            if isinstance(d_, ast.Constant) and d_.value is None:
+                optional.add(p_.arg)
+        for c in calls_in(cf):
+            if call_name(c) != "_add_node" or not isinstance(c.func, ast.Attribute):
+                continue
+            par = kwarg(c, "parent", 1)
+            n += 1
+            bad = par is None or (isinstance(par, ast.Constant) and par.value is None) or (isinstance(par, ast.Name) and par.id in optional)
+            ctx.check(not bad, rule, f"Hugr.{name}: new node gets a parent", file, getattr(c, "lineno", m.lineno),
+                      f"{name} hands `{u(par) if par is not None else 'nothing'}` to _add_node as the parent: when the caller leaves it out the node is created "
+                      "detached (no parent, in nobody's child list) instead of under the root, which add_node guarantees by defaulting first", c,
+                      expected="parent or self.root (or going through add_node)", found=u(par) if par is not None else "")
+    ctx.stats[f"{rule} raw node constructions outside the constructor"] = n
+
+
 def r2_pairing(ctx, hugr, file) -> None:
     """stated over path summaries (hv/paths.py) of delete_node and _add_node"""
     from ..tmpl import T, tmatch
@@ -832,6 +862,7 @@ def run(ctx) -> None:
     file = hugr.module.path
     r1_who_may_write(ctx)
     r2_pairing(ctx, hugr, file)
+    parentless_nodes_rule(ctx, hugr, file)
     r3_dense_suboffsets(ctx, hugr, file)
     r4_deletion_complete(ctx, hugr, file)
     r5_pure_queries(ctx, hugr, file)
